@@ -57,7 +57,12 @@ def spectral_clustering(H, k=2, max_iter=1_000, seed=None):
 
     # Compute normalize Laplacian and its spectra
     L, rowdict = normalized_hypergraph_laplacian(H, index=True)
-    evals, eigs = eigsh(L, k=k, which="SA")
+    # ARPACK starts from a random vector drawn from numpy's global generator unless
+    # one is given; tie it to the seed so that equal seeds give equal results
+    v0 = None
+    if seed is not None:
+        v0 = np.random.default_rng(seed=seed).uniform(-1, 1, size=L.shape[0])
+    evals, eigs = eigsh(L, k=k, which="SA", v0=v0)
 
     # Form metric space representation
     X = np.array(eigs)
